@@ -237,6 +237,26 @@ func c13Drain(c *mon.Ctx, caseID string, w *world.World, info map[string]any) {
 		d["trace_tail"] = w.TraceTail(20)
 		c.Violation(v.Class, caseID, d)
 	}
+	// every security report ever raised carries two authentic, mutually inconsistent signed heads
+	for _, m := range w.SecurityMessages() {
+		o, nw, ok := c13SecurityHeads(m)
+		good := false
+		if ok {
+			on1, _, ok1 := c13Branches(w, []byte(o))
+			on2, _, ok2 := c13Branches(w, []byte(nw))
+			good = ok1 && ok2 && len(o) > 0 && len(nw) > 0 && !c13Consistent(on1, on2)
+		}
+		c.Eval(1)
+		if !good {
+			d := map[string]any{"message": m}
+			for k, x := range info {
+				d[k] = x
+			}
+			c.Violation("security-callback-lacks-both-inconsistent-heads", caseID, d)
+			break
+		}
+		c.Class("security-report:both-inconsistent-heads-present")
+	}
 	// one timeline: all installed heads lie on one branch
 	w2 := w
 	count := make([]int, len(w2.Logs))
@@ -318,6 +338,17 @@ func c13Sequential(c *mon.Ctx, A, B *world.Log, p, a, b, h int, long bool, warm 
 			mk()
 		}
 		c13Lookup(c, caseID, w, cc, B.Mods[id].Path, B.Mods[id].Vers, "phase2-B", info)
+	}
+	// phase 2b: a restarted client whose init-time read of the stored head fails once (transient I/O
+	// error); the server still presents B. The client must not silently start from an empty timeline.
+	if r.IntN(2) == 0 && b > 0 {
+		mk()
+		w.ArmConfigReadFault()
+		for k := 0; k < 3; k++ {
+			id := (b - 1 + k*(b/2+1)) % b
+			c13Lookup(c, caseID, w, cc, B.Mods[id].Path, B.Mods[id].Vers, "phase2b-B-after-failed-config-read", info)
+		}
+		c.Class("scenario:restart-with-failed-config-read")
 	}
 	// phase 3: back to A (possibly grown view of the same branch)
 	cur, size = A, a
